@@ -151,3 +151,58 @@ def check_numeric(ctx: Ctx, rr: RuleResult, modules: Iterable[str], decoder_exem
                 rr.ok({"site": where, "op": txt, "why": f"dividend proved non-negative: {a} (floor == truncation)"})
             else:
                 rr.fail(where, f"flooring operator on a possibly negative quantity where truncation toward zero is documented: `{txt}` (dividend {a})", f"{fn.mod.rel}:{node.lineno}", rule_clause="rounding-mode discipline")
+
+
+# ------------------------------------------------------------------------------------------- wrap-around helpers
+
+
+WRAP_RANGE = {"_int32_overflow": (-(2**31), 2**31 - 1), "_int64_overflow": (-(2**63), 2**63 - 1)}
+
+# wrap sites reviewed as intended two's-complement reinterpretation (not arithmetic), one line of reason each
+WRAP_REVIEWED = {
+    "_DateTimeZoneReader.__read_int64": "reassembles a signed 64-bit value from two unsigned 32-bit halves read from the stream: the wrap *is* the decoding",
+    "_DateTimeZoneReader.read_int64": "same decoding (public name)",
+    "_YearMonthDayCalendar._year": "sign-extends the packed year field held in the top bits of a 32-bit word: the wrap is the decoding (layout decided by R01.1)",
+}
+
+
+def check_wraps(ctx: Ctx, rr: RuleResult, modules: Iterable[str] | None = None) -> None:
+    """`_int32_overflow` / `_int64_overflow` reproduce C#'s silent wrap-around.  In a port that computes with unbounded integers they
+    are harmless only where the argument is already inside the type's range (the wrap is the identity); on a quantity that can
+    exceed it they turn an exact result into a wrong one of the opposite sign instead of an error.  Every call site is analysed in
+    its function (parameters unconstrained, class invariants from the contract table) and the argument's interval must lie inside
+    the range."""
+    M = ctx.M
+    mods = set(modules) if modules is not None else None
+    for f in sorted(set(M.func_of_node.values()), key=lambda x: x.qual):
+        if isinstance(f.node, ast.Lambda) or "_compatibility" in f.mod.rel or f.mod.rel.endswith("_csharp_compatibility.py"):
+            continue
+        if mods is not None and f.mod.rel not in mods:
+            continue
+        sites = [n for n in own_nodes(f.node) if isinstance(n, ast.Call) and isinstance(n.func, ast.Name) and n.func.id in WRAP_RANGE]
+        if not sites:
+            continue
+        seen: dict[int, list[AV]] = {}
+        I = interp(ctx)
+
+        def on_builtin(c: ast.Call, args: list, st: State, fn: Func, _seen: dict = seen) -> None:
+            if fn is f and isinstance(c.func, ast.Name) and c.func.id in WRAP_RANGE and args:
+                _seen.setdefault(id(c), []).append(args[0])
+
+        I.on_builtin = on_builtin
+        try:
+            I.analyse(f, label=f.qual)
+        except Exception:  # noqa: BLE001
+            pass
+        rr.states += I.steps
+        for c in sites:
+            rr.inst()
+            lo, hi = WRAP_RANGE[c.func.id]  # type: ignore[union-attr]
+            vals = seen.get(id(c), [])
+            if f.qual in WRAP_REVIEWED:
+                rr.ok({"site": f.qual, "why": WRAP_REVIEWED[f.qual]})
+            elif vals and all(isinstance(v, (Iv, ConstV)) and num(v).within(lo, hi) for v in vals):
+                rr.ok({"site": f.qual, "op": unparse(c)[:70], "argument": repr(vals[0])})
+            else:
+                shown = repr(vals[0]) if vals else "not reached by the analysis"
+                rr.fail(f.qual, f"`{unparse(c)[:80]}` wraps a quantity not proved inside the {c.func.id[1:6]} range ({shown}): an exact result silently becomes a wrong one", f"{f.mod.rel}:{c.lineno}", rule_clause="wrap discipline")  # type: ignore[union-attr]
